@@ -15,7 +15,7 @@ def site_ids(fnode):
     kinds = {ast.Return: "ret", ast.Raise: "raise", ast.Assert: "assert", ast.Subscript: "sub", ast.Call: "call",
              ast.Yield: "yield", ast.YieldFrom: "yieldfrom", ast.For: "loop", ast.While: "loop", ast.BinOp: "binop",
              ast.Assign: "assign", ast.AugAssign: "assign", ast.AnnAssign: "assign", ast.If: "if", ast.Expr: "expr",
-             ast.Try: "try", ast.Delete: "del"}
+             ast.Try: "try", ast.Delete: "del", ast.ListComp: "listcomp"}
 
     class V(ast.NodeVisitor):
         def generic_visit(self, node):
@@ -711,6 +711,10 @@ def st_While(self, s, st):
 
 
 def loop_spec(self, node):
+    if hasattr(node, "_pyvc_comp"):
+        k = node._pyvc_comp
+        pre = "" if self.cur_fn == self.c.qual else f"inl:{self.cur_fn}/"
+        return f"{pre}listcomp#{k}", f"c{k}", self.cur_contract.comp_loops.get(k)
     sid = self.site(node)
     k = int(sid.split("#")[-1]) if "#" in sid else 0
     spec = self.cur_contract.loops.get(k) if self.cur_contract else None
